@@ -664,7 +664,7 @@ Definition compiled_or_empty (p : fcprog) : cprog :=
 Definition compiled_before_fix_or_empty (p : fcprog) : cprog :=
   match compile_prog_before_fix p with Ok c => c | Err _ => mkcp [] [] [] 0 end.
 
-(* REGRESSION STATEMENTS about the translation as it was before fix commit <commitcap> of /repo
+(* REGRESSION STATEMENTS about the translation as it was before fix commit d5d4151 of /repo
    ([compile_prog_before_fix]: the continuation was placed under let / pattern binders of names it
    mentions).  Source semantics: prints 12; the OLD translation's Core program: prints 14 *)
 Lemma capture_witness_fun : run_fun 200 capture_witness [] = ([(true, 12%Z)], OExit 0%Z).
